@@ -3,7 +3,7 @@ import json
 import os
 import vlib
 
-PROPS = ['Rangers.Props.C04', 'Rangers.Props.C04B', 'Rangers.Props.C04C']
+PROPS = ['Rangers.Props.C04', 'Rangers.Props.C04B', 'Rangers.Props.C04C', 'Rangers.Props.C04D']
 DRIVERS = ['C04']
 BOUND_TOKEN = 'b0' + '5e' * 19      # a non-zero bound token contract for the second configuration
 
@@ -88,8 +88,38 @@ def _concurrency(ctx):
     return res
 
 
+def _answer_classes(c):
+    """Distribution of answer classes per op kind (which branch of each reader / mutator the stream reached)."""
+    import collections
+    paths = c.get('paths') or {}
+    if not paths.get('ops') or not os.path.exists(paths['ops']):
+        return {}
+    d = collections.defaultdict(collections.Counter)
+    for o, a in zip(open(paths['ops'], errors='replace'), open(paths['obs'], errors='replace')):
+        o, a = o.rstrip('\n'), a.rstrip('\n')
+        k = o.split(' ')[0]
+        if a.startswith('PANIC'):
+            cl = 'PANIC'
+        elif k in ('suicide', 'exist', 'empty', 'cantransfer', 'iscontract', 'suicided', 'inal', 'addbinding', 'inalslot', 'revert'):
+            cl = a
+        elif k in ('subbal', 'subft'):
+            cl = a.split(' ')[-1]
+        elif k in ('getdata', 'code', 'logs', 'allrefund'):
+            cl = 'empty' if a == '-' else 'nonempty'
+        elif k in ('getstate', 'committed', 'tget', 'codehash'):
+            cl = 'zero' if set(a) <= set('0') else 'nonzero'
+        elif k in ('bal', 'nonce', 'getft', 'refund', 'codesize', 'subrefund', 'incnonce'):
+            cl = 'zero' if a == '0' else ('ok' if a == 'ok' else 'nonzero')
+        else:
+            continue
+        d[k][cl] += 1
+    return {k: dict(v) for k, v in sorted(d.items())}
+
+
 def _post(c):
     st = c.get('stats') or {}
+    if isinstance(st, dict):
+        st['answer_classes'] = _answer_classes(c)
     if not isinstance(st, dict):
         return
     if st.get('root_clashes'):
